@@ -685,3 +685,17 @@ def c01_16(ctx, r):
     from .c07 import c07_8
 
     c07_8(ctx, r)
+
+
+@rule(P, "C01.17", "X0", "one node of a multi-node batch is the manager (the one that starts the user's command and records results)", min_obligations=1)
+def c01_17(ctx, r):
+    from .c08 import manager_election
+
+    manager_election(ctx, r, "C01.17", single_node=False)  # a single-node run that does not elect itself loses results (C03), it starts nothing twice
+
+
+@rule(P, "C01.18", "T2", "what a round collected is recorded by that round (a job whose blocker's result was consumed but not recorded is never placed)", min_obligations=2)
+def c01_18(ctx, r):
+    from .c05 import c05_19
+
+    c05_19(ctx, r)
